@@ -21,8 +21,8 @@ def collide_store(rng, n=None, authors=3):
         a = rng.choice(h.authors)
         k = rng.choice(kinds)
         tags = []
-        for _ in range(rng.choice([0, 1, 1, 2, 3])):
-            nm = rng.choice(["t", "t", "p", "e", "g"])
+        for _ in range(rng.choice([0, 1, 1, 2, 3, 4])):
+            nm = rng.choice(["t", "t", "t", "p", "e", "g"])
             if nm == "p":
                 tags.append(["p", h.pub(rng.choice(h.authors))])
             elif nm == "e" and h.events:
